@@ -291,6 +291,11 @@ def build(s):
         aaguid = k.get("aaguid", s.aaguid)
     cdj = authsim.client_data(s.cd_type, s.sign_challenge if s.sign_challenge is not None else s.challenge, s.origin,
                               extra=s.cd_extra, token_binding=s.token_binding)
+    if k.get("cd_wrap"):          # client data that is a JSON string holding the JSON text (stringified twice), hashed and attested as such
+        for _ in range(k["cd_wrap"][0]):
+            cdj = json.dumps(cdj.decode("utf-8")).encode()
+        cdj += k["cd_wrap"][1]
+    cdj = k.get("cd_prefix", b"") + cdj + k.get("cd_suffix", b"")
     ad = authsim.authdata(s.sign_rp_id or s.rp_id, s.flags, s.count, aaguid=aaguid, cred_id=s.cred_id, cose_bytes=cose_bytes, ext=s.ext)
     cdh = hashlib.sha256(cdj).digest()
     pki = PKI(tag=s.pki_tag, n_inter=s.n_inter, **k.get("pki_kw", {}))
@@ -354,7 +359,7 @@ def build(s):
             # a known TPM algorithm id for which no digest is mapped (e.g. SM3-256): Name built with SHA-256 as a stand-in
             HNAME.setdefault(k["tpm_name_alg_raw"], hashlib.sha256)
             name_alg = k["tpm_name_alg_raw"]
-        pub_area = tpm_pub_area(k.get("tpm_pub_cred", cred), name_alg=name_alg, exponent=k.get("tpm_exponent", 0),
+        pub_area = tpm_pub_area(k.get("tpm_pub_cred", cred), name_alg=name_alg, exponent=k.get("tpm_exponent", 0), attrs=k.get("tpm_attrs", 0x00050472), auth_policy=k.get("tpm_auth_policy", b""),
                                 unique_override=k.get("tpm_unique"), curve_override=k.get("tpm_curve"), type_override=k.get("tpm_type"))
         hname = ATT_HASH[att_alg] if att_alg in ATT_HASH else "SHA256"
         extra = HNAME[k.get("tpm_extra_hash", hname)](signed_ad + signed_cdh).digest()
